@@ -219,7 +219,8 @@ class pCN(Sampler):
     def single_update(self, x_t, loglike_eval_t):
         # propose state
         xi = self.prior.sample(1).flatten()   # sample from the prior
-        x_star = np.sqrt(1-self.scale**2)*x_t + self.scale*xi   # pCN proposal
+        mean = getattr(self.prior, 'mean', 0) # the proposal must preserve the prior N(mean, C), also for a non-zero mean
+        x_star = mean + np.sqrt(1-self.scale**2)*(x_t-mean) + self.scale*(xi-mean)   # pCN proposal
 
         # evaluate target
         loglike_eval_star =  self._loglikelihood(x_star) 
